@@ -79,4 +79,12 @@ CHECKS = {
           "for f64 (exact maps) and i64, and into minimum_rotated_rect."),
     note="Trusted: TLC. All subsets of <= 5 (7 thorough) points of the 4x4 lattice and <= 4 (5) of the 5x5 lattice; larger magnitudes via exact maps.",
     technique="TLA+ declarative hull + exact min-rectangle enumerated by TLC; spec->impl replay", design_ref="DESIGN.md 5 C08"),
+ "C09": dict(
+    text=("Gen_Simplify.tla: nondeterministic exact models of compute_rdp (with the global simplified_len guard) and of the "
+          "Visvalingam-Whyatt loop; TLC computes the set of admissible outputs for every vertex sequence of the 3x3 lattice x 6 "
+          "tolerances and proves on every state that each admissible output satisfies the stated postconditions (model => "
+          "property); the implementation's index and coordinate variants must be members of the set, agree with each other, be "
+          "the identity for eps <= 0, and keep rings closed / >= 4 coordinates."),
+    note="Trusted: TLC rational arithmetic. Ties (equal distances / areas, dmax = eps) are modelled as nondeterminism, so float rounding at ties cannot raise an alarm.",
+    technique="TLA+ nondeterministic algorithm models (admissible-output sets) checked against postconditions by TLC; spec->impl replay", design_ref="DESIGN.md 5 C09"),
 }
